@@ -1467,18 +1467,6 @@ Proof.
   - intros j Hj Hl. rewrite O; [|exact Hj|lia]. now apply nth_error_app1.
 Qed.
 
-Lemma splice_new_insert_spec ts rs r tid ri T p kd cs idx n :
-  nth_error rs r = Some (Some (mk_hnd tid p)) -> nth_error ts tid = Some (mk_slot true ri T) ->
-  get_path T p = Some (Node kd cs) -> idx <= length cs ->
-  exists ts' F,
-    runs (splice_new r idx idx n) (mk_state ts rs) tt (mk_state ts' (map (option_map F) rs)) /\
-    nth_error ts' tid = Some (mk_slot true ri (upd_path T p (fun _ => Node kd (insert_at idx [n] cs)))) /\
-    (forall g, h_tid g < length ts -> above tid p g -> F g = g).
-Proof.
-  intros Hr HT HG Hidx. destruct (splice_new_insert_spec_o ts rs r tid ri T p kd cs idx n Hr HT HG Hidx) as (ts' & F & R & T' & A & _).
-  now exists ts', F.
-Qed.
-
 (* from "children replaced under F" to the node_op form *)
 Lemma node_op_from_F (m : nat -> M unit) N N' :
   (forall ts rs r tid ri T p, nth_error rs r = Some (Some (mk_hnd tid p)) ->
